@@ -134,4 +134,17 @@ Terminal == \A r \in Reqs : st[r] \notin {"new", "waiting", "granted", "running"
 Emit == (Depth > 0 /\ (Len(hist) = Depth \/ Terminal)) => PrintT(<<"REPLAY", ToJson(hist)>>)
 DepthBound == Depth = 0 \/ Len(hist) <= Depth
 View == <<st, queue, permits>>
+-----------------------------------------------------------------------------
+(* Liveness (C18 "excess requests wait ... a slot is freed whenever a       *)
+(* request finishes ... capacity never leaks").  The wrapped service         *)
+(* finishes every request it was given (Leave is weakly fair) and a request  *)
+(* that was handed a permit is polled; arrivals and cancellations are up to  *)
+(* the environment.  Then a request that waits in Block mode gets in (or is  *)
+(* cancelled): nobody waits for ever behind capacity that was freed.         *)
+Fairness == \A r \in Reqs : WF_vars(Poll(r)) /\ WF_vars(\E how \in {"ok", "err"} : Leave(r, how))
+FairSpec == Spec /\ Fairness
+WaitersGetIn == \A r \in Reqs : (st[r] \in {"waiting", "granted"}) ~> (st[r] \in {"running", "ok", "err", "cancelled"})
+EveryoneLeaves == \A r \in Reqs : (st[r] = "running") ~> (st[r] \in {"ok", "err", "cancelled"})
+(* whenever all requests are through, every permit is back - and it stays that way *)
+CapacityRestored == (\A r \in Reqs : st[r] # "new") ~> [](\A p \in Peers : permits[p] = Max)
 =============================================================================
